@@ -218,10 +218,16 @@ def _rigid(V):
         functions=[f"{M.CLS['Structure']}.rotate_dihedral", f"{M.CLS['CartesianGeometry']}.dihedral", "molli.chem.structure:Substructure.coords"])
 def _dihedral(V):
     I, st = V.I, V.st
-    m = M.mk_mol(V, "Molecule", 4, ((0, 1), (1, 2), (2, 3)))
+    # "heavy-far-side": the side that must move (beyond atoms[2]) is the LARGER one; "heavy-near-side": the smaller one
+    shape = V.choose(["chain", "heavy-far-side", "heavy-near-side"], "shape")
+    extra = {"chain": (), "heavy-far-side": ((3, 4), (3, 5)), "heavy-near-side": ((0, 4), (0, 5))}[shape]
+    m = M.mk_mol(V, "Molecule", 4 + len(extra), ((0, 1), (1, 2), (2, 3)) + extra)
     before = [list(r) for r in m.fields["_coords"].data]
     target = V.sym("target", "real")
-    atoms = tuple(m.fields["_atoms"].items)
+    atoms = tuple(m.fields["_atoms"].items[:4])
+    fixed = (0, 1) + ((4, 5) if shape == "heavy-near-side" else ())
+    moved = (2, 3) + ((4, 5) if shape == "heavy-far-side" else ())
+    V.witness(lambda ev: {"op": "rotate_dihedral", "shape": shape, "signature": "rotate_dihedral"})
     recorded = {}
 
     def arctan2(I_, a, k):
@@ -234,7 +240,7 @@ def _dihedral(V):
     if not out.returned or any(e[0] == "np-division-by-zero" for e in st.trace):
         return
     after = m.fields["_coords"].data
-    V.ensure("frame/atoms-on-the-fixed-side-do-not-move", z3.And(*[Z(after[i][k]) == Z(before[i][k]) for i in (0, 1) for k in range(3)]))
+    V.ensure("frame/atoms-on-the-fixed-side-do-not-move", z3.And(*[Z(after[i][k]) == Z(before[i][k]) for i in fixed for k in range(3)]))
     # the moved side is rotated about the axis through atoms[1] by the matrix of rotation_matrix_from_axis(ax, target - old)
     # in the column convention proved for that function: after = origin + R (before - origin)
     ang_terms = [v for k, v in st.ghost.items() if isinstance(k, tuple) and k[0] == "trig"]
@@ -252,7 +258,7 @@ def _dihedral(V):
     R = [[(1 if i == j else 0) + Z(s_) * W[i][j] + (1 - Z(c_)) * WW[i][j] for j in range(3)] for i in range(3)]
     o = [Z(before[1][k]) for k in range(3)]
     pairs = []
-    for i in (2, 3):
+    for i in moved:
         for r in range(3):
             pairs.append((Z(after[i][r]), o[r] + sum(R[r][k] * (Z(before[i][k]) - o[k]) for k in range(3))))
     eqs("post/moved-side-is-rotated-right-handed-about-the-central-bond-by-the-angle", V, pairs)
